@@ -82,6 +82,32 @@ def run(ctx):
         with open(p, 'wb') as f:
             f.write(bomb * m)
         files[('decompress', 'bomb', m)] = p
+    # many spurious candidates that decode completely and fail only in the run-length emitter:
+    # whatever the scheduler does with them, their decoders must be given back
+    from .. import bzsynth as bs, defects, ora
+    def inner_bytes(k):
+        blk = defects.big_run_block(rnd, 5 * k + 4, byte=0)
+        blk.crc = 0x31337000 + k
+        bw = bs.BW(); blk.write(bw)
+        return bw.tobytes()
+    for m, ncand in ((1, 40), (4, 160), (16, 640)):
+        blocks = []
+        left = ncand
+        while left > 0:
+            pieces = []
+            for _ in range(min(left, 20)):
+                ib = inner_bytes(rnd.choice([0, 1, 3, 50]))
+                if b'\xff' not in ib:
+                    pieces.append(ib)
+            left -= 20
+            if pieces:
+                blocks.append(bs.plant_block(rnd, pieces, filler=40))
+        data = bs.build([bs.Stream(9, blocks)])
+        if ora.refbz(data, want_out=False)[0] == 'VALID':
+            p = os.path.join(wd, 'planted%d.bz2' % m)
+            with open(p, 'wb') as f:
+                f.write(data)
+            files[('decompress', 'planted-late-failing-candidates', m)] = p
     ws = [1, 2, 4, 8]
     table = []
     jobs = []
